@@ -280,11 +280,17 @@ def scen_maskdict(ctx, M):
         arg = {'outer': FrozenMap(inner_pairs), 'n': 1}
     elif shape == 'nested-dict':
         arg = FrozenMap([('outer', FrozenMap(inner_pairs)), ('n', 1)])
+    elif shape == 'nested3':
+        arg = {'top': {'outer': FrozenMap(inner_pairs), 'n': 1}, 'm': [2]}
     before_pairs = list(inner_pairs)
     out = su.mask_dict_password(arg) if not p.get('mask') else \
         su.mask_dict_password(arg, secret=p['mask'])
     mask = p.get('mask', '***')
     ctx.check('C08-returns-new-dict', type(out) is dict and out is not arg)
+    if shape == 'nested3':
+        ctx.check('C08-nested3-keys', set(out.keys()) == {'top', 'm'} and
+                  out['m'] is arg['m'] and type(out['top']) is dict)
+        out = out['top']
     inner = out if shape == 'flat' else out['outer']
     if shape != 'flat':
         ctx.check('C08-nested-keys', set(out.keys()) == {'outer', 'n'} and
